@@ -211,6 +211,25 @@ for _nm, _sp in (('rn', R), ('discr', D3), ('arn', A3)):
         lambda ctx, _sp=_sp: odl.PointwiseSum(_vf(_sp())))
 recipe('PointwiseNorm/rn/p=inf', [TENS + 'PointwiseNorm'], heavy=True)(
     lambda ctx: odl.PointwiseNorm(_vf(R()), exponent=float('inf')))
+def _wvf(kind):
+    if kind == 'const':
+        return odl.ProductSpace(D3(), 2, weighting=2.0)
+    return odl.ProductSpace(D3(), 2, weighting=[1.0, 2.0])
+
+
+for _wk in ('const', 'array'):
+    for _ow, _own in ((None, 'default'), (1.0, 'unit-const'), ([1.0, 1.0], 'unit-array'), ([2.0, 0.5], 'array'),
+                      (3.0, 'const')):
+        recipe('PointwiseInner/pspace-%s/opweight-%s' % (_wk, _own), [TENS + 'PointwiseInner'], linear=True,
+               deriv=True)(
+            lambda ctx, _wk=_wk, _ow=_ow: odl.PointwiseInner(_wvf(_wk), ctx.element(_wvf(_wk), 'm'), weighting=_ow))
+        recipe('PointwiseSum/pspace-%s/opweight-%s' % (_wk, _own), [TENS + 'PointwiseSum'], linear=True,
+               deriv=True)(
+            lambda ctx, _wk=_wk, _ow=_ow: odl.PointwiseSum(_wvf(_wk), weighting=_ow))
+        recipe('PointwiseInnerAdjoint/pspace-%s/opweight-%s' % (_wk, _own), [TENS + 'PointwiseInnerAdjoint'],
+               linear=True, deriv=True)(
+            lambda ctx, _wk=_wk, _ow=_ow: odl.operator.tensor_ops.PointwiseInnerAdjoint(
+                D3(), ctx.element(_wvf(_wk), 'm'), vfspace=_wvf(_wk), weighting=_ow))
 recipe('PointwiseInner/cn', [TENS + 'PointwiseInner'], linear=True, deriv=True, cplx=True)(
     lambda ctx: odl.PointwiseInner(_vf(C2()), ctx.element(_vf(C2()), 'm')))
 recipe('PointwiseInner/pspace-weighted', [TENS + 'PointwiseInner'], linear=True, deriv=True)(
@@ -236,6 +255,14 @@ recipe('Matrix/axis1', [TENS + 'MatrixOperator'], linear=True, deriv=True)(
     lambda ctx: odl.MatrixOperator(_matrix(ctx, (2, 3)), domain=odl.rn((2, 3)), axis=1))
 recipe('Matrix/axis0-2d', [TENS + 'MatrixOperator'], linear=True, deriv=True)(
     lambda ctx: odl.MatrixOperator(_matrix(ctx, (3, 2)), domain=odl.rn((2, 2)), axis=0))
+for _shp in ((3, 3, 2), (2, 3, 2), (2, 2, 3)):
+    for _ax in (0, 1, 2):
+        recipe('Matrix/3d/%s/axis%d' % ('x'.join(map(str, _shp)), _ax), [TENS + 'MatrixOperator'], linear=True,
+               deriv=True, heavy=(_shp != (3, 3, 2)))(
+            lambda ctx, _shp=_shp, _ax=_ax: odl.MatrixOperator(_matrix(ctx, (2, _shp[_ax])), domain=odl.rn(_shp),
+                                                               axis=_ax))
+recipe('Matrix/2d-weighted/axis1', [TENS + 'MatrixOperator'], linear=True, deriv=True)(
+    lambda ctx: odl.MatrixOperator(_matrix(ctx, (2, 3)), domain=odl.rn((2, 3), weighting=0.5), axis=1))
 recipe('Sampling/point_eval', [TENS + 'SamplingOperator'], linear=True, deriv=True)(
     lambda ctx: odl.SamplingOperator(D23(), [[0, 1, 1], [0, 2, 1]]))
 recipe('Sampling/integrate', [TENS + 'SamplingOperator'], linear=True, deriv=True)(
@@ -267,6 +294,29 @@ recipe('ProductSpaceOperator/1x2-mixed', [PSP + 'ProductSpaceOperator'], linear=
 recipe('ProductSpaceOperator/nonlinear', [PSP + 'ProductSpaceOperator'], deriv=True)(
     lambda ctx: odl.ProductSpaceOperator([[odl.PowerOperator(R(2), 2), None],
                                           [_S(ctx, R(2), 'a'), odl.PowerOperator(R(2), 3)]]))
+def _pso_layout(ctx, layout):
+    """ProductSpaceOperator from a 0/1 layout; 1 = symbolic 2x2 matrix block, 0 = empty."""
+    rows = []
+    k = 0
+    for r in layout:
+        row = []
+        for e in r:
+            if e:
+                row.append(odl.MatrixOperator(ctx.array('M%d' % k, (2, 2))))
+                k += 1
+            else:
+                row.append(None)
+        rows.append(row)
+    n, m = len(layout), len(layout[0])
+    return odl.ProductSpaceOperator(rows, domain=odl.ProductSpace(R(2), m), range=odl.ProductSpace(R(2), n))
+
+
+for _nm, _lay in (('upper-right-only', [[0, 1], [0, 0]]), ('lower-left-only', [[0, 0], [1, 0]]),
+                  ('upper-left-only', [[1, 0], [0, 0]]), ('empty-middle-row', [[1, 0, 1], [0, 0, 0], [0, 1, 1]]),
+                  ('empty-first-row', [[0, 0], [1, 1]]), ('empty-column', [[1, 0], [1, 0]]),
+                  ('1x3', [[1, 0, 1]]), ('3x1', [[1], [0], [1]]), ('anti-diagonal', [[0, 1], [1, 0]])):
+    recipe('ProductSpaceOperator/layout/' + _nm, [PSP + 'ProductSpaceOperator'], linear=True, deriv=True)(
+        lambda ctx, _lay=_lay: _pso_layout(ctx, _lay))
 recipe('ComponentProjection/int', [PSP + 'ComponentProjection'], linear=True, deriv=True)(
     lambda ctx: odl.ComponentProjection(odl.ProductSpace(R(2), R(3)), 1))
 recipe('ComponentProjection/list', [PSP + 'ComponentProjection'], linear=True, deriv=True)(
@@ -298,10 +348,19 @@ recipe('Diagonal/nonlinear', [PSP + 'DiagonalOperator'], deriv=True)(
 
 # ---------------------------------------------------- discretized operators
 for _m in ('forward', 'backward', 'central'):
-    for _pad in ('constant', 'periodic', 'symmetric', 'order1', 'order1_adjoint'):
-        recipe('PartialDerivative/%s/%s' % (_m, _pad), [DIFF + 'PartialDerivative'], linear=True, deriv=True,
-               heavy=(_pad not in ('constant', 'order1')))(
+    for _pad in ('constant', 'periodic', 'symmetric', 'symmetric_adjoint', 'order0', 'order0_adjoint', 'order1',
+                 'order1_adjoint', 'order2', 'order2_adjoint'):
+        recipe('PartialDerivative/%s/%s' % (_m, _pad), [DIFF + 'PartialDerivative'], linear=True, deriv=True)(
             lambda ctx, _m=_m, _pad=_pad: odl.PartialDerivative(D23(), axis=1, method=_m, pad_mode=_pad))
+        if 'order2' not in _pad:
+            recipe('PartialDerivative/%s/%s/2pts' % (_m, _pad), [DIFF + 'PartialDerivative'], linear=True,
+                   deriv=True, heavy=True)(
+                lambda ctx, _m=_m, _pad=_pad: odl.PartialDerivative(D23(), axis=0, method=_m, pad_mode=_pad))
+    for _pad in ('order1', 'order2', 'periodic'):
+        recipe('Gradient/%s/%s/3pts' % (_m, _pad), [DIFF + 'Gradient'], linear=True, deriv=True)(
+            lambda ctx, _m=_m, _pad=_pad: odl.Gradient(D3(), method=_m, pad_mode=_pad))
+        recipe('Divergence/%s/%s/3pts' % (_m, _pad), [DIFF + 'Divergence'], linear=True, deriv=True)(
+            lambda ctx, _m=_m, _pad=_pad: odl.Divergence(range=D3(), method=_m, pad_mode=_pad))
 recipe('PartialDerivative/affine', [DIFF + 'PartialDerivative'], deriv=True)(
     lambda ctx: odl.PartialDerivative(D3(), axis=0, pad_mode='constant', pad_const=ctx.real('c', nonzero=True)))
 recipe('PartialDerivative/nodes_on_bdry', [DIFF + 'PartialDerivative'], linear=True, deriv=True)(
@@ -411,6 +470,18 @@ recipe('expr/LeftVectorMult/nonlinear', [OPER + 'OperatorLeftVectorMult'], deriv
     lambda ctx: ctx.element(R(2), 'v') * _N(ctx, 2))
 recipe('expr/LeftVectorMult/complex', [OPER + 'OperatorLeftVectorMult'], linear=True, deriv=True, cplx=True)(
     lambda ctx: ctx.element(C2(), 'v') * odl.IdentityOperator(C2()))
+recipe('expr/LeftVectorMult/real->complex', [OPER + 'OperatorLeftVectorMult'], linear=True, deriv=True, cplx=True)(
+    lambda ctx: ctx.element(C2(), 'v') * odl.ComplexEmbedding(R(2), scalar=ctx.cplx('s')))
+recipe('expr/LeftVectorMult/complex->real', [OPER + 'OperatorLeftVectorMult'], linear=True, deriv=True, cplx=True)(
+    lambda ctx: ctx.element(R(2), 'v') * odl.RealPart(C2()))
+recipe('expr/RightVectorMult/real->complex', [OPER + 'OperatorRightVectorMult'], linear=True, deriv=True, cplx=True)(
+    lambda ctx: odl.ComplexEmbedding(R(2), scalar=ctx.cplx('s')) * ctx.element(R(2), 'v'))
+recipe('expr/RightVectorMult/complex->real', [OPER + 'OperatorRightVectorMult'], linear=True, deriv=True, cplx=True)(
+    lambda ctx: odl.ImagPart(C2()) * ctx.element(C2(), 'v'))
+recipe('expr/LeftScalarMult/real->complex', [OPER + 'OperatorLeftScalarMult'], linear=True, deriv=True, cplx=True)(
+    lambda ctx: ctx.cplx('a') * odl.ComplexEmbedding(R(2)))
+recipe('expr/Comp/real->complex->real', [OPER + 'OperatorComp'], linear=True, deriv=True, cplx=True)(
+    lambda ctx: odl.RealPart(C2()) * (ctx.element(C2(), 'v') * odl.ComplexEmbedding(R(2))))
 recipe('expr/RightVectorMult/linear', [OPER + 'OperatorRightVectorMult'], linear=True, deriv=True)(
     lambda ctx: _L(ctx, 'A') * ctx.element(R(2), 'v'))
 recipe('expr/RightVectorMult/nonlinear', [OPER + 'OperatorRightVectorMult'], deriv=True)(
